@@ -229,6 +229,9 @@ func (x *Exec) checkFrame(fr *Frame, st *State, ret *ssa.Return) {
 		}
 		if c.Kind == "ghostset" {
 			if i := strings.Index(c.Targets[0], "("); i > 0 {
+				if n := strings.TrimSpace(c.Targets[0][:i]); n == "chanSent" || n == "chanRecvd" {
+					allow = append(allow, allowed{prefix: "chan"})
+				}
 				if gm := x.prog.contracts.GhostMaps[strings.TrimSpace(c.Targets[0][:i])]; gm != nil {
 					reg, _, _ := ghostMapRegion(gm)
 					allow = append(allow, allowed{prefix: reg})
@@ -585,6 +588,9 @@ func (c *scanCtx) contractEffects(ctr *Contract, sig *types.Signature, isGo bool
 	for _, cl := range ctr.Clauses {
 		if cl.Kind == "ghostset" && cl.Spawn == isGo {
 			if i := strings.Index(cl.Targets[0], "("); i > 0 {
+				if n := strings.TrimSpace(cl.Targets[0][:i]); n == "chanSent" || n == "chanRecvd" {
+					c.out.whole["chan"] = true
+				}
 				if gm := c.x.prog.contracts.GhostMaps[strings.TrimSpace(cl.Targets[0][:i])]; gm != nil {
 					reg, _, _ := ghostMapRegion(gm)
 					c.out.whole[reg] = true
